@@ -162,6 +162,11 @@ var c11Connections = []c11Lines{
 	{"suffixed-lookalike", []string{"Upgrade2"}},
 	{"other-token", []string{"keep-alive"}},
 	{"space-glued", []string{"close upgrade"}}, // one list element; the keyword is only part of it
+	// the other header's keyword next to / instead of this header's own (an implementation that
+	// looks for both keywords in one merged token list accepts what it must refuse)
+	{"both-keywords", []string{"Upgrade, websocket"}},
+	{"other-headers-keyword", []string{"websocket"}},
+	{"other-headers-keyword-second-line", []string{"Upgrade", "WebSocket"}},
 	{"empty", []string{""}},
 	{"absent", nil},
 }
@@ -176,6 +181,8 @@ var c11Upgrades = []c11Lines{
 	{"prefixed-lookalike", []string{"xwebsocket"}},
 	{"other-token", []string{"h2c"}},
 	{"space-glued", []string{"not websocket"}},
+	{"other-headers-keyword", []string{"Upgrade"}},
+	{"both-keywords", []string{"websocket, Upgrade"}},
 	{"empty", []string{""}},
 	{"absent", nil},
 }
